@@ -17,6 +17,11 @@ G == INSTANCE CtphRef WITH NUM <- 31, LEN <- 64, UNIT <- 192, SB <- 16777216,
        RollInit <- RealRollInit, RollNext <- RealRollNext, RollLevel <- RealRollLevel,
        RollIsZero <- RealRollIsZero, HInit <- Fnv6Init, HNext <- Fnv6Step
 
+(* L2 (implementation-shaped engine) at the same real constants, for lock-step validation *)
+I == INSTANCE Generator WITH NUM <- 31, LEN <- 64, UNIT <- 192, SB <- 16777216,
+       RollInit <- RealRollInit, RollNext <- RealRollNext, RollLevel <- RealRollLevel,
+       RollIsZero <- RealRollIsZero, HInit <- Fnv6Init, HNext <- Fnv6Step
+
 (* the state a generator has after n zero bytes (n as a size pair): zero   *)
 (* bytes never end a piece, the window is all zero, every hash has seen    *)
 (* n zero bytes and the 6-bit FNV state has period 16 on zero bytes.       *)
@@ -27,4 +32,7 @@ ZerosState(n) ==
   [ref |-> [size |-> n, roll |-> RealRollInit, all |-> z,
             cx |-> [i \in 0..30 |-> [G!RCtxInit EXCEPT !.hf = z, !.hh = z]]],
    fixed |-> G!NoSize]
+IZerosState(n) ==
+  LET z == FnvZeros(n[2] % 16) IN
+  [I!IInit EXCEPT !.size = n, !.cx[0] = [I!ICtxNew EXCEPT !.hf = z, !.hh = z]]
 =============================================================================
